@@ -131,6 +131,8 @@ extern bool enabled;
 void des_model_selftest();
 // key, in, out: 8 bytes; FIPS 46-3
 void des_model_crypt(const unsigned char key[8], const unsigned char in[8], unsigned char out[8], bool decrypt);
+void des_key_from_cd(uint32_t c28, uint32_t d28, unsigned parity_noise, unsigned char out[8]);
+void des_block_from_lr(uint32_t l, uint32_t r, unsigned char out[8]);
 
 // ---------------------------------------------------------------- generator (gen.cc)
 J generate_plan(const std::string &prop, uint64_t seed, const std::string &tier);
